@@ -60,11 +60,11 @@ func verifJP(t verifStreamSink, typ types.JoinPointRunType, maxCalls uint64, tar
 	x.ncalls = verifChoose("jp.calls", maxCalls)
 	for i := 0; i < x.ncalls; i++ {
 		t.CaptureEnter(vm.CALL, common.Address{3}, target, []byte{2}, 10, big.NewInt(0))
-		t.CaptureExit([]byte{3}, 5, verifErr(uint64(verifChoose("jp.call.err", 2))))
+		t.CaptureExit([]byte{3}, 5, verifErr(uint64(verifChoose("jp.call.err", verifParam("errkinds")))))
 	}
 	x.left = verifU64("jp.left")
 	verifAssume(x.left <= x.gas)
-	x.err = verifErr(uint64(verifChoose("jp.err", 2)))
+	x.err = verifErr(2 * uint64(verifChoose("jp.err", 1)))
 	x.out = verifBytes("jp.out", 1, 1)
 	t.CaptureAspectExit(typ, &types.AspectExecutionResult{Gas: x.left, Err: x.err, Ret: x.out})
 	return x
@@ -126,14 +126,14 @@ func VerifHarness_CallTracerStream(flat uint64) {
 	for i := 0; i < nKids; i++ {
 		t.CaptureEnter(vm.CALL, common.Address{2}, target, []byte{4}, 100, big.NewInt(0))
 		enters++
-		if verifBool("grandchild") {
+		if i == 0 && verifBool("grandchild") {
 			t.CaptureEnter(vm.STATICCALL, target, common.Address{8}, nil, 50, nil)
 			t.CaptureExit(nil, 1, nil)
 			enters++
 		}
-		t.CaptureExit([]byte{5}, 50, verifErr(uint64(verifChoose("kid.err", 2))))
+		t.CaptureExit([]byte{5}, 50, verifErr(uint64(verifChoose("kid.err", verifParam("errkinds")))))
 	}
-	nPost := verifChoose("npost", maxJP)
+	nPost := verifChoose("npost", verifParam("postaspects"))
 	for i := 0; i < nPost; i++ {
 		x := verifJP(t, types.JoinPointRunType_PostContractCall, maxCalls, target)
 		enters += x.ncalls
